@@ -96,7 +96,20 @@ func getCorpus() *corpusWorld {
 			out, err := cmd.CombinedOutput()
 			w.toolLog[c] = string(out)
 			fail := ""
-			if err != nil {
+			if err == nil {
+				// determinism (C13): a second run in a fresh process must write the same bytes
+				first, _ := os.ReadFile(filepath.Join(dir, c, "setup.gen.go"))
+				cmd2 := exec.Command(bin, "setup.go")
+				cmd2.Dir = filepath.Join(dir, c)
+				cmd2.Env = goEnv()
+				out2, err2 := cmd2.CombinedOutput()
+				second, _ := os.ReadFile(filepath.Join(dir, c, "setup.gen.go"))
+				if err2 != nil || string(first) != string(second) || string(out) != string(out2) {
+					fail = fmt.Sprintf("two runs of convergen on corpus case %s differ (exit/diagnostics/output bytes)", c)
+				}
+			}
+			if fail != "" {
+			} else if err != nil {
 				fail = fmt.Sprintf("convergen rejects the well-formed corpus case %s: %v\n%s", c, err, clip(string(out), 600))
 			} else if err := genHarness(filepath.Join(dir, c)); err != nil {
 				fail = fmt.Sprintf("corpus case %s: %v", c, err)
